@@ -438,6 +438,18 @@ func genPrioScenario(rng *rand.Rand, g prioGen) PrioScenario {
 			}
 		}
 	}
+	if g.Mode == "general" && !sc.Starved && rng.IntN(8) == 0 {
+		// one buffered input has a second consumer: whatever it takes is not the discipline's
+		var buffered []int
+		for i, in := range sc.Inputs {
+			if in.Cap > 0 {
+				buffered = append(buffered, i)
+			}
+		}
+		if len(buffered) > 0 {
+			sc.Inputs[buffered[rng.IntN(len(buffered))]].Thief = true
+		}
+	}
 	anyLeft := func() bool {
 		for _, n := range left {
 			if n > 0 {
@@ -560,7 +572,26 @@ func genPrioScenario(rng *rand.Rand, g prioGen) PrioScenario {
 			if longIdle {
 				sc.Script = append(sc.Script, POp{K: "S", D: int64(150000 + rng.IntN(150000))})
 			}
-			sc.Script = append(sc.Script, POp{K: "C", P: keepOpen})
+			if !longIdle && !sc.Starved && (sc.Ver == "v2" || sc.Ver == "v1") && rng.IntN(5) == 0 {
+				// the input that stays open is a nil channel: nothing can ever be read from it and it
+				// can never be closed, so the discipline must never report termination on its own
+				kept := sc.Script[:0:0]
+				for _, op := range sc.Script {
+					if (op.K == "W" || op.K == "C") && op.P == keepOpen {
+						continue
+					}
+					kept = append(kept, op)
+				}
+				sc.Script = kept
+				for i := range sc.Inputs {
+					if sc.Inputs[i].P == keepOpen {
+						sc.Inputs[i] = PInputSpec{P: keepOpen, NilChan: true}
+					}
+				}
+				sc.NeverEnds = true
+			} else {
+				sc.Script = append(sc.Script, POp{K: "C", P: keepOpen})
+			}
 		default: // release everything but do not read the last items for a while (v1: they sit in the output)
 			sc.Script = append(sc.Script, POp{K: "R", Mode: "all"}, POp{K: "S", D: int64(100 + rng.IntN(2000))})
 		}
